@@ -141,3 +141,61 @@ def h_contrib_layout(env, ifeat_ids=(0, 3, 6, 7), has_vj=False):
     env.check("n0", ccl.n0 == n0, "%r vs %r" % (ccl.n0, n0))
     env.check("n1", ccl.n1 == n1, "%r vs %r" % (ccl.n1, n1))
     env.check("nbeta_is_n0_plus_2n1", ccl.nbeta == n0 + 2 * n1, "%r" % (ccl.nbeta,))
+
+
+def h_generator_theta(env, version, level, rho_mult, plan_kind, ng=2):
+    """what the generator hands to the convolution chain: the real LCAONLDFGenerator.get_features over the real plan
+    (get_rho_tuple, get_interpolation_arguments, get_function_to_convolve) must pass theta_q(r) = p_q(arg(r)) * w(r) * n(r) for
+    rho_mult = 'one' and p_q(arg(r)) * w(r) * n(r) * a_theta(r) for rho_mult = 'expnt' - the documented function with the *exponent*
+    a_theta, whatever the plan's interpolation argument is (the exponent for a Gaussian plan, a knot index Q(a) for a spline plan: an
+    uninterpreted differentiable Q here) - at the grid position the index map assigns.  Contract stubs as in C01-L3 (interpolation
+    coefficients = leaf functions, convolution chain = recorder returning zeros)."""
+    from fractions import Fraction
+    from .. import stubs
+    from . import c01_l2, c01_l3
+    plan, s = c01_l2.make_plan(env, version, level, rho_mult, 1, "gq")
+    if plan_kind == "spline":
+        Q = stubs.LeafFn(env, "interp_index", 1)
+
+        def gia(rho_tuple, i=-1):
+            a, da = plan.eval_feat_exp(rho_tuple, i=i)
+            q = a.copy()
+            for idx in np.ndindex(*a.shape):
+                q[idx] = Q.val([a[idx]])
+                for d in da:
+                    d[idx] = d[idx] * Q.grad([a[idx]], 0)
+            return q, da
+        plan._get_interpolation_arguments = gia
+    perm = tuple(reversed(range(ng)))
+    gen, M, w = c01_l3._make_generator(env, plan, s, ng, perm)
+    seen = {}
+    real_fwd = gen._perform_fwd_convolution
+
+    def rec(theta_gq, grad_mode=False):
+        seen["theta"] = theta_gq.copy()
+        return real_fwd(theta_gq, grad_mode=grad_mode)
+    gen._perform_fwd_convolution = rec
+    nrho = 5 if level == "MGGA" else 4
+    rho = env.arr("rho", (nrho, ng), lo="-8", hi="8")
+    for g in range(ng):
+        env.assume(rho[0, g] > env.const(Fraction(1, 10 ** 6)))
+        if nrho == 5:
+            env.assume(rho[4, g] >= 0)
+    env.eps_zero()
+    ok, _ = env.attempt("get_features_returns", lambda: gen.get_features(rho.copy(), spin=0))
+    if not ok:
+        return
+    env.check("convolution_was_called", "theta" in seen)
+    if "theta" not in seen:
+        return
+    theta = seen["theta"]
+    tup = plan.get_rho_tuple(rho.copy())
+    a0 = plan.eval_feat_exp(tup, i=-1)[0]
+    arg = plan.get_interpolation_arguments(plan.get_rho_tuple(rho.copy()), i=-1)[0]
+    for g in range(ng):
+        pos = perm[g]
+        ag = np.array([arg[g]], dtype=object if env.sym else float)
+        p = plan.get_interpolation_coefficients(ag, i=-1)[0]
+        f = rho[0, g] * (a0[g] if rho_mult == "expnt" else 1)
+        for q in range(plan.nalpha):
+            env.equal("theta_point%d_q%d_is_coefficient_times_documented_function" % (g, q), theta[pos, q], p[0, q] * f * w[pos])
